@@ -886,6 +886,97 @@ func (g *cgen) literals() {
 	tree("a/b f 0", "f32", "abs", "f32", nBin("/", afLit(fbits(1)), afLit(fbits(0))))
 }
 
+// chains: trees of depth 2-3 whose inner operator nodes produce negative, boundary and wrapped intermediate values; they are
+// written (forms chain_*) with every inner node as a computed module-scope constant, consumed by a further constant, a
+// const_assert, a case selector, an array size, a workgroup size or an expression in a function body.
+func (g *cgen) chains() {
+	type inner struct {
+		op   string
+		x, y int64
+	}
+	inners := map[string][]inner{
+		"i32": {{"-", 2, 5}, {"-", 0, 1}, {"-", -2147483647, 1}, {"*", -7, 3}, {"+", 2147483647, 1}, {"*", 46341, 46341}, {"-", 7, 2}, {"+", -2147483647, 2147483600}},
+		"u32": {{"-", 0, 1}, {"-", 3, 5}, {"+", 4294967295, 1}, {"*", 65536, 65537}, {"+", 2147483648, 5}, {"-", 7, 2}, {"-", 4294967295, 2147483647}},
+	}
+	type outer struct {
+		op string
+		z  int64
+		zk string // kind of z ("" = the chain's kind)
+	}
+	outers := []outer{{"/", 2, ""}, {"%", 2, ""}, {">>", 1, "u32"}, {"<", 0, ""}, {"<=", 4, ""}, {">", 1, ""}, {">=", 0, ""}, {"==", 5, ""}, {"!=", 5, ""},
+		{"+", 1, ""}, {"-", 1, ""}, {"*", 2, ""}, {"&", 255, ""}, {"|", 1, ""}, {"^", 21, ""}, {"<<", 1, "u32"}, {"/", 3, ""}, {"%", 7, ""}, {">>", 31, "u32"}}
+	thirds := []outer{{"/", 2, ""}, {"%", 3, ""}, {">>", 1, "u32"}, {"<", 0, ""}, {"+", 7, ""}}
+	mk := func(k, sp string, v int64, zk string) wg.N {
+		kk := k
+		if zk != "" {
+			kk = zk
+		}
+		if sp == "typed" {
+			return aiLit(v)
+		}
+		return cLit(kk, int32(uint32(v)))
+	}
+	// node builds `x op y` in the given spelling; "typed": abstract literals, the result declared with the chain's kind
+	node := func(k, sp, op string, a, b wg.N) wg.N {
+		e := nBin(op, a, b)
+		if sp == "typed" && isAbs(kindOf(tOf(e))) && lanesOf(tOf(e)) == 0 {
+			return nCast(tS(k), e)
+		}
+		return e
+	}
+	nth := 0
+	for _, k := range []string{"i32", "u32"} {
+		ins := inners[k]
+		for oi, o := range outers {
+			for _, sp := range []string{"sfx", "typed"} {
+				for ii, in := range ins {
+					if g.quick && !(ii == oi%2 || ii == (int(g.seed)+oi+len(sp))%len(ins)) {
+						continue // quick: the canonical negative / wrapped inner value plus one rotating with the seed
+					}
+					if k == "u32" && in.x < 0 {
+						continue
+					}
+					a := node(k, sp, in.op, mk(k, sp, in.x, ""), mk(k, sp, in.y, ""))
+					e := nBin(o.op, a, mk(k, sp, o.z, o.zk))
+					g.add(&ccase{OpClass: "chain", Op: in.op + "," + o.op, Kind: k, Shape: "s", Spell: sp, Tree: nSink(e, "")})
+					nth++
+					// depth 3: a third operator over the second constant (integer-valued second results only)
+					if cmpOps[o.op] || (g.quick && (nth+int(g.seed))%4 != 0) {
+						continue
+					}
+					t3 := thirds[(nth+ii)%len(thirds)]
+					b := node(k, sp, o.op, a, mk(k, sp, o.z, o.zk))
+					e3 := nBin(t3.op, b, mk(k, sp, t3.z, t3.zk))
+					g.add(&ccase{OpClass: "chain", Op: in.op + "," + o.op + "," + t3.op, Kind: k, Shape: "s", Spell: sp, Tree: nSink(e3, "")})
+				}
+			}
+		}
+		// unary inner nodes and a vector chain
+		for _, sp := range []string{"sfx", "typed"} {
+			neg := node(k, sp, "-", mk(k, sp, 3, ""), mk(k, sp, 10, ""))
+			if k == "i32" {
+				un := nUn("-", neg)
+				if sp == "typed" {
+					un = nCast(tS(k), nUn("-", nBin("-", aiLit(10), aiLit(3))))
+				}
+				g.add(&ccase{OpClass: "chain", Op: "neg,/", Kind: k, Shape: "s", Spell: sp, Tree: nSink(nBin("/", un, mk(k, sp, 2, "")), "")})
+			}
+			nt := nUn("~", node(k, sp, "+", mk(k, sp, 5, ""), mk(k, sp, 1, "")))
+			if sp == "typed" {
+				nt = nCast(tS(k), nUn("~", nBin("+", aiLit(5), aiLit(1))))
+				if k == "u32" {
+					nt = nil // ~6 is -7: not a u32
+				}
+			}
+			if nt != nil {
+				g.add(&ccase{OpClass: "chain", Op: "not,>>", Kind: k, Shape: "s", Spell: sp, Tree: nSink(nBin(">>", nt, cLit("u32", 1)), "")})
+			}
+		}
+		va := nBin("-", vecOf(2, k, []int32{2, 0}, "sfx"), vecOf(2, k, []int32{5, 1}, "sfx"))
+		g.add(&ccase{OpClass: "chain", Op: "-,/", Kind: k, Shape: "v2", Spell: "sfx", Tree: nSink(nBin("/", va, vecOf(2, k, []int32{2, 2}, "sfx")), "")})
+	}
+}
+
 // genConstCases builds the case list for this tier and seed.
 func genConstCases(seed int64, quick bool) []*ccase {
 	g := &cgen{rng: rand.New(rand.NewSource(seed)), quick: quick, seed: seed}
@@ -900,6 +991,7 @@ func genConstCases(seed int64, quick bool) []*ccase {
 	}
 	g.ctorSwz()
 	g.literals()
+	g.chains()
 	return g.out
 }
 
